@@ -173,8 +173,8 @@ def eval_case(case):
             try:
                 doc = json.loads(r.out)
                 docs = doc if isinstance(doc, list) else [doc]
-                labels = sorted((d.get('host'), d.get('port')) for d in docs if isinstance(d, dict))
-                want = sorted((t['host'], t['eport']) for t in targets)
+                labels = sorted(((d.get('host'), d.get('port')) for d in docs if isinstance(d, dict)), key=repr)      # (an element may lack them when a target could not be audited)
+                want = sorted(((t['host'], t['eport']) for t in targets), key=repr)
                 if labels != want and not fails:
                     fails.append(['policy-json-host-port', '%r vs %r' % (labels, want)])
             except ValueError:
@@ -190,8 +190,8 @@ def eval_case(case):
         try:
             doc = json.loads(r.out)
             docs = doc if isinstance(doc, list) else [doc]
-            labels = sorted(d.get('target') for d in docs if isinstance(d, dict))
-            want = sorted('%s:%d' % (t['host'], t['eport']) for t in targets)
+            labels = sorted((d.get('target') for d in docs if isinstance(d, dict)), key=repr)
+            want = sorted(('%s:%d' % (t['host'], t['eport']) for t in targets), key=repr)
             if labels != want and not fails:
                 fails.append(['json-target-label', '%r vs %r' % (labels, want)])
         except ValueError:
